@@ -608,6 +608,9 @@ func runLive(t failer, c *ev.Collector, lc liveCase) (inside int) {
 	kinds, names, _ := lc.plan()
 	ref, rtail, rprob, _ := sendCase(twinA.Addr, lc, nil)
 	fail := func(key, what string) {
+		if strings.Contains(key, "hang") {
+			hangSeen = true
+		}
 		c.Fail(t, key, what, lc)
 	}
 	probKey := func(p string) string { return p[:strings.IndexByte(p, ':')] }
@@ -659,6 +662,17 @@ func runLive(t failer, c *ev.Collector, lc liveCase) (inside int) {
 	return inside
 }
 
+// hangSeen: a hang costs the whole hang budget per execution, so once one is
+// recorded the shrinker's re-executions fail immediately (the recorded replay
+// stays the first, real, failing case).
+var hangSeen bool
+
+func skipIfHangSeen(rt *rapid.T) {
+	if hangSeen {
+		rt.Fatalf("a hang was already recorded for this sub-check; not re-executing while shrinking")
+	}
+}
+
 type failer interface {
 	Fatalf(format string, args ...any)
 	Helper()
@@ -671,7 +685,9 @@ func TestC16_Live(t *testing.T) {
 	c.Rule("streams of 1-60 keyspace commands (TTL excluded: time dependent) with PING m<i> order markers and a final QUIT, as RESP+telnet, RESP after OUTPUT json, native, mixed RESP/telnet/native, or one HTTP GET/POST/WebSocket request after 0-6 preparation commands; sent over TCP_NODELAY to in-process server B cut at 1 point, at up to 24 points (a third next to command boundaries) or byte-at-a-time (<=400 bytes); after a segment ending on a command boundary the client waits for exactly the replies owed, after one ending inside a command it pauses 0/0.2/2 ms. The canonical replies (length prefixes and elapsed removed) must equal those of one uncut write to twin A prepared identically (FLUSHDB + same preparation), their number must equal the number of commands, nothing may follow, every PING marker must be answered at its position, and the server must close after QUIT / the HTTP reply. Non-trivial: at least one segment ends strictly inside a command; distinct by (kind, number of cuts, pause, command names hit by cuts).")
 	maxCmds := ev.Pick(60, 120)
 	ev.Rapid("live", ev.Pick(260, 2500))
+	hangSeen = false
 	rapid.Check(t, func(rt *rapid.T) {
+		skipIfHangSeen(rt)
 		big := 0
 		if rapid.IntRange(0, 14).Draw(rt, "bigcase") == 0 {
 			big = 150
@@ -722,7 +738,9 @@ func TestC16_LivePipeline(t *testing.T) {
 	nCmds := ev.Pick(2000, 5000)
 	c.Rule(fmt.Sprintf("one connection carrying a pipeline of %d keyspace commands (RESP, or mixed with telnet and native) plus order markers and QUIT, written uncut to twin A and in 2-40 random segments (or fixed 1460/4096/65535/65536-byte segments) to server B without waiting for replies in between except at command boundaries; same oracle as live. Non-trivial: a segment ends inside a command; distinct by (kind, segmentation, size).", nCmds))
 	ev.Rapid("live-pipeline", ev.Pick(6, 40))
+	hangSeen = false
 	rapid.Check(t, func(rt *rapid.T) {
+		skipIfHangSeen(rt)
 		var lc liveCase
 		lc.Kind = rapid.SampledFrom([]string{"resp", "mixed", "native"}).Draw(rt, "kind")
 		o := streamOpts{noTTL: true}
